@@ -85,6 +85,9 @@ pub fn check(c: &Case, ctx: &mut Ctx) -> Result<(), Failure> {
                     return Ok(());
                 }
                 fp.f(inp.bar.c);
+                if i % 50 == 49 && c.later.len() > 200 {
+                    accessors_ok(&ind, &c.cfg, "during a long life", ctx)?;
+                }
             }
             if !c.later.is_empty() {
                 accessors_ok(&ind, &c.cfg, "after a history of next/reset", ctx)?;
@@ -160,7 +163,7 @@ fn single_kinds() -> Vec<Kind> {
 }
 
 /// boundary configurations: every allocation-free period argument set to each boundary value
-fn boundary_cfgs() -> Vec<Cfg> {
+pub fn boundary_cfgs() -> Vec<Cfg> {
     let mut v = vec![];
     for &b in &BOUNDS {
         for kind in [Kind::Ema, Kind::Atr, Kind::Rsi] {
@@ -259,6 +262,63 @@ pub fn run(g: &mut Global) {
     let bc = boundary_cfgs();
     g.exhaustive("boundary", bc.len() as u64, &move |i| Case { cfg: bc[i as usize].clone(), later: vec![letter(1.0), letter(3.0), letter(2.0)], reset_at: Some(2) }, &check);
     g.random("later_history", g.tier.pick(60000, 600000), &later_strategy, &check);
+    // lives of 1 500 inputs under structured data (strictly rising / falling, geometric growth and decline, constant,
+    // two alternating values, saw-tooth), accessors and Display examined after every 50th input and at the end: a
+    // repair path that rebuilds a component from the wrong template changes what the instance reports about itself
+    let pats = 8u64;
+    let sets: Vec<Cfg> = {
+        let mut v = vec![];
+        for &k in ALL_KINDS.iter() {
+            match k.n_periods() {
+                0 => v.push(Cfg { kind: k, p: vec![], m: X(0.0) }),
+                1 => {
+                    for n in [9usize, 22, 30] {
+                        v.push(Cfg { kind: k, p: vec![n], m: X(if k.has_mult() { 2.5 } else { 0.0 }) });
+                    }
+                }
+                2 => {
+                    for p in [[14usize, 22], [14, 3], [5, 30], [9, 47], [22, 14]] {
+                        v.push(Cfg { kind: k, p: p.to_vec(), m: X(0.0) });
+                    }
+                }
+                _ => {
+                    for p in [[3usize, 6, 4], [5, 10, 4], [12, 26, 9], [2, 3, 22], [26, 12, 30]] {
+                        v.push(Cfg { kind: k, p: p.to_vec(), m: X(0.0) });
+                    }
+                }
+            }
+        }
+        v
+    };
+    let nsets = sets.len() as u64;
+    g.exhaustive(
+        "structured_lives",
+        nsets * pats,
+        &move |i| {
+            let cfg = sets[(i / pats) as usize].clone();
+            let pat = i % pats;
+            let later: Vec<Inp> = (0..1500usize)
+                .map(|t| {
+                    let x = match pat {
+                        0 => 100.0 + t as f64 * 0.25,
+                        1 => 1000.0 - t as f64 * 0.25,
+                        2 => 50.0 * 1.01f64.powi(t as i32),
+                        3 => 5e4 * 0.99f64.powi(t as i32),
+                        4 => 42.5,
+                        5 => [10.0, 11.0][t % 2],
+                        6 => 100.0 + (t % 17) as f64,
+                        _ => 3.0 * 1.003f64.powi(t as i32),
+                    };
+                    // rising bars close on their high, falling ones on their low
+                    let (h, l) = (x * 1.002, x * 0.998);
+                    let c = if pat % 2 == 0 { h } else { l };
+                    Inp { bar: crate::adapter::RawBar { o: x, h, l, c, v: 100.0 }, scalar: t % 3 != 0 && pat != 7 }
+                })
+                .collect();
+            Case { cfg, later, reset_at: if pat == 6 { Some(700) } else { None } }
+        },
+        &check,
+    );
     // a long life with a reset shortly before a power-of-two call count: a periodic rebuild that derives the
     // parameters from the current state would change period()/Display exactly there
     let seedl = g.seed;
